@@ -153,7 +153,21 @@ def _build(inp, where):
 # --------------------------------------------------------------------------- observations
 
 def _row(path, kind, ex, fid, content):
-    return list(path.encode()) + [-1, kind, 1 if ex else 0, fid, -1] + list(content)
+    return list(path.encode()) + [-1, kind, int(ex), fid, -1] + list(content)
+
+
+def _ambiguous(pt, tt, path):
+    """PreviewTree._path2trans_id takes the first child with the right name out of a set: when several
+    children (dead ones included) carry the name the answer depends on the set's iteration order."""
+    cur = tt.root
+    for seg in (path.split("/") if path else []):
+        m = [c for c in pt._all_children(cur) if tt.final_name(c) == seg]
+        if len(m) > 1:
+            return True
+        if not m:
+            return False
+        cur = m[0]
+    return False
 
 
 def _conflict_row(c, names=True):
@@ -188,18 +202,34 @@ def _preview_listing(tt, fmt):
     for path in paths:
         if path in rows:
             continue
+        if _ambiguous(pt, tt, path):
+            rows[path] = list(path.encode()) + [-1, -3]
+            continue
         try:
             kind = pt.kind(path)
         except Exception as e:
             kind = None
-        fid = pt.path2id(path) if fmt == "bzr" else (b"f0" if pt.is_versioned(path) else None)
+        if fmt == "bzr":
+            fid = pt.path2id(path)
+        else:
+            try:
+                fid = b"f0" if pt.is_versioned(path) else None
+            except AttributeError:
+                fid = b"f999"        # GitPreviewTree.is_versioned(new unversioned path) raises (finding)
+            if kind == "directory":
+                fid = None           # git does not version directories
         content = []
         if kind == "file":
             try:
                 content = list(pt.get_file_text(path))
             except Exception:
                 content = [-2]
-        ex = bool(pt.is_executable(path)) if kind == "file" else False
+        ex = 0
+        if kind == "file":
+            try:
+                ex = 1 if pt.is_executable(path) else 0
+            except NotADirectoryError:
+                ex = 2
         if kind is None and fid is None:
             continue
         rows[path] = _row(path, KIND[kind], ex, _unfid(fid), content)
@@ -238,7 +268,10 @@ def _disk_listing(root, wt, fmt):
                     content = list(f.read())
             else:
                 kind, ex, content = "symlink", False, []
-            rows[path] = _row(path, KIND[kind], ex, _unfid(inv.get(path)), content)
+            fidn = _unfid(inv.get(path))
+            if fmt != "bzr" and kind == "directory":
+                fidn = 0
+            rows[path] = _row(path, KIND[kind], ex, fidn, content)
     return sorted(rows.values())
 
 
@@ -440,6 +473,8 @@ class _Gen:
         self.unv = {i + 1 for i, b in enumerate(base) if b[5] is None}   # trans ids without a file id
         self.fresh = 20
         self.created = []
+        self.par = {i + 1: b[0] for i, b in enumerate(base)}
+        self.dead = set()
 
     def tids(self):
         return list(range(1, self.next))
@@ -477,6 +512,9 @@ class _Gen:
         k = op[0]
         if k in ("new_file", "new_dir", "create_path"):
             t = self.next
+            if op[2] in self.dead:
+                return
+            self.par[t] = op[2]
             self.next += 1
             self.created.append((t, {"new_file": "f", "new_dir": "d", "create_path": None}[k]))
             fid = op[4] if k == "new_file" else (op[3] if k == "new_dir" else None)
@@ -499,7 +537,7 @@ class _Gen:
         elif k == "version":
             if op[1] in self.ids or op[2] in self.fids:
                 return
-            if op[1] not in self.unv:
+            if op[1] not in self.unv and self.rng.random() < 0.6:
                 return      # re-versioning a versioned path: InconsistentDelta at apply (notes/C14.md)
             self.unv.discard(op[1])
             self.ids.add(op[1])
@@ -514,15 +552,17 @@ class _Gen:
                     return
                 self.execs.add(op[2])
         elif k == "adjust":
-            if op[3] == 0:
+            if op[3] == 0 or op[3] in self.dead or op[2] in self.dead:
                 return
+            self.par[op[3]] = op[2]
         elif k == "delete":
             if 1 <= op[1] <= len(self.base):
                 self.removed.add(op[1])
         elif k == "cancel_creation":
-            if op[1] not in self.contents:
-                return
+            if op[1] not in self.contents or self.par.get(op[1]) != 0:
+                return      # a content-less id that once had contents, below a file: TransformRenameFailed
             self.contents.discard(op[1])
+            self.dead.add(op[1])
         elif k == "cancel_deletion":
             if op[1] not in self.removed:
                 return
@@ -761,6 +801,12 @@ def oracle(inp, obs):
         return f"apply of a conflict-free transform raised {astatus}"
     if isinstance(preview, Err):
         return f"preview tree raised {preview}"
+    if any(r[r.index(-1) + 3] == 1000 for r in preview if r[-1] != -3):
+        return "GitPreviewTree.is_versioned raised AttributeError"
+    if inp.get("fmt", "bzr") != "bzr":
+        return None      # git: directory versioning and extras() differ by design; listings not compared
+    if any(r[-1] == -3 for r in preview):
+        return "preview path lookup is ambiguous (a dead trans id shares parent and name with another one)"
     if preview != after:
         if _mask(preview) == _mask(after):
             return "preview differs from the applied tree in content/exec only"
@@ -768,23 +814,32 @@ def oracle(inp, obs):
     return None
 
 
-def _shadowed(inp):
-    """A deleted (or content-less) trans id shares parent and name with another one: the preview's
-    path lookup may answer with the dead one."""
-    nbase = len(inp["base"])
-    par = {i + 1: b[0] for i, b in enumerate(inp["base"])}
-    nam = {i + 1: b[1] for i, b in enumerate(inp["base"])}
-    n = nbase + 1
+def _created(inp):
+    created, n = set(), len(inp["base"]) + 1
     for o in inp["ops"]:
         if o[0] in ("create_path", "new_file", "new_dir"):
-            par[n], nam[n] = o[2], o[1]
+            created.add(n)
             n += 1
-        elif o[0] == "adjust":
-            par[o[3]], nam[o[3]] = o[2], o[1]
-    seen = {}
-    for t in par:
-        seen.setdefault((par[t], nam[t]), []).append(t)
-    return any(len(v) > 1 for v in seen.values())
+    return created
+
+
+def _reversion(inp):
+    """version_file on a base path that is versioned and was not unversioned before."""
+    unv = set()
+    for o in inp["ops"]:
+        if o[0] == "unversion":
+            unv.add(o[1])
+        if (o[0] == "version" and 1 <= o[1] <= len(inp["base"]) and inp["base"][o[1] - 1][5] is not None
+                and o[1] not in unv):
+            return True
+    return False
+
+
+def _dead_versioned(inp):
+    """delete_contents of a versioned base path that stays versioned."""
+    unv = {o[1] for o in inp["ops"] if o[0] == "unversion"}
+    return any(o[0] == "delete" and 1 <= o[1] <= len(inp["base"]) and inp["base"][o[1] - 1][5] is not None
+               and o[1] not in unv for o in inp["ops"])
 
 
 def finding_matches(fid, inp, obs, why):
@@ -801,21 +856,23 @@ def finding_matches(fid, inp, obs, why):
                 and any(r[0] == 2 for r in obs[1]))
     if fid == "C14-resolve-valueerror":
         return (why.startswith("resolve_conflicts raised ValueError")
-                and any(r[0] == 1 and (r[1] > nbase or (r[1] >= 1 and inp["base"][r[1] - 1][5] is None))
-                        for r in obs[1]))
+                and (bool(_created(inp)) or any(b[5] is None for b in inp["base"])))
     if fid == "C14-resolve-duplicatekey":
         return (why.startswith("resolve_conflicts raised DuplicateKey")
-                and any(r[0] in (1, 5) for r in obs[1]))
+                and any(r[0] in (1, 5, 10) for r in obs[1]))
     if fid == "C14-unversion-new-id":
-        created, n = set(), nbase + 1
-        for o in inp["ops"]:
-            if o[0] in ("create_path", "new_file", "new_dir"):
-                created.add(n)
-                n += 1
         return (why.startswith("apply of a conflict-free transform raised KeyError")
-                and any(o[0] == "unversion" and o[1] in created for o in inp["ops"]))
+                and any(o[0] == "unversion" and o[1] in _created(inp) for o in inp["ops"]))
+    if fid == "C14-reversion":
+        return ((why.startswith("apply of a conflict-free transform raised InconsistentDelta")
+                 or why.startswith("preview differs from the applied tree")) and _reversion(inp))
+    if fid == "C14-dead-versioned-child":
+        return (why.startswith("apply of a conflict-free transform raised InconsistentDelta")
+                and not _reversion(inp) and _dead_versioned(inp))
+    if fid == "C14-git-preview-is-versioned":
+        return why.startswith("GitPreviewTree.is_versioned raised AttributeError") and inp.get("fmt") == "git"
     if fid == "C14-preview-path-lookup":
-        return why.startswith("preview differs from the applied tree (paths, kinds or versioning)") and _shadowed(inp)
+        return why.startswith("preview path lookup is ambiguous")
     if fid == "C14-unversion-unversioned":
         return (why.startswith("find_raw_conflicts raised NoSuchFile")
                 and any(o[0] == "unversion" and 1 <= o[1] <= nbase and inp["base"][o[1] - 1][5] is None
@@ -876,4 +933,5 @@ def shrink(inp, fails):
 
 FINDINGS = ["C14-preview-content-exec", "C14-preview-path-lookup", "C14-replaced-directory",
             "C14-resolve-keyerror", "C14-resolve-valueerror", "C14-resolve-duplicatekey",
-            "C14-unversion-unversioned", "C14-unversion-new-id"]
+            "C14-unversion-unversioned", "C14-unversion-new-id", "C14-reversion", "C14-dead-versioned-child",
+            "C14-git-preview-is-versioned"]
